@@ -50,7 +50,8 @@ func acct(i int) *account.Account {
 func pubKeyBytes(i int) []byte { return keypair.SerializePublicKey(acct(i).PublicKey) }
 
 // the deployed helper contract: stores / returns through its own storage context, callable by APPCALL
-//   PUSHBYTES1 'k' ; SYSCALL GetContext ; SYSCALL Get ; (returns the stored value)   -- code is fixed
+//
+//	PUSHBYTES1 'k' ; SYSCALL GetContext ; SYSCALL Get ; (returns the stored value)   -- code is fixed
 func helperCode() []byte {
 	a := &asm{}
 	a.pushBytes([]byte("k"))
@@ -209,7 +210,6 @@ func getWorld() *world {
 	theWorld = w
 	return w
 }
-
 
 func (w *world) close() {
 	if w == nil {
